@@ -286,9 +286,10 @@ P("C19", module="AJ.Props.C19All", extra=[("AJ.Props.C19", ["C19"]), ("AJ.Props.
   "under a matrix of geometries and compared with the model, including histories that cross the slot limit with 1-byte ids.",
   level_note="C19Str: a failing string copy is clean (string_copy_fails_cleanly, copied/raw_string_set_fails_cleanly), reference counts are bounded by the number of live slots < 2^(8*idBytes) "
   "(refcount_never_wraps(_history)), slot ids never wrap along histories; the STRING_LENGTH_SIZE limit itself is not in the slot-level model (model_has_no_string_length_limit) and is covered "
-  "by the correspondence on the len1/len4 builds",
+  "on the implementation: strings, raw values and keys of exactly the longest storable length and one byte more (1-byte and 2-byte lengths) must succeed / fail cleanly (false, overflowed, "
+  "nothing stored, usable again after clear)",
   suites=lambda tier: [S.HistSuite(cfg=G["id1c10"], nh=30 if tier == "quick" else 1500), S.HistSuite(cfg=G["id1i3"], nh=30 if tier == "quick" else 1500), S.HistSuite(cfg=G["len1"], nh=25 if tier == "quick" else 1500),
-                       S.LimitSuite(cfg=G["id1c10"]), S.LimitSuite(cfg=G["tiny1"]), S.LimitSuite(cfg=G["id1i3"])] +
+                       S.LimitSuite(cfg=G["id1c10"]), S.LimitSuite(cfg=G["tiny1"]), S.LimitSuite(cfg=G["id1i3"]), S.LimitSuite(cfg=G["len1"])] +
   ([S.HistSuite(cfg=G[g], nh=1500) for g in ("tiny2", "len4", "id1")] if tier == "thorough" else []))
 
 P("C20", level_text="Theorems: (1) the inventory of every object with static storage duration defined by ArduinoJson code — regenerated on every run from the object code of a "
